@@ -66,7 +66,10 @@ Variants(S, s) ==
     [] s.k = "arr" -> {A([i \in 1..n |-> Default(S, s.a[i].t)]) : n \in {m \in 1..Len(s.a) : s.a[m].opt}}
     [] s.k = "list" -> {A([i \in 1..n |-> Default(S, s.a)]) : n \in {m \in 0..2 : m >= s.b}}
     [] s.k = "set" -> {T(258, A(<<>>)) : x \in {1} \cap {y \in {1} : s.b = 0}} \cup {T(258, A(<<Default(S, s.a)>>)), A(<<Default(S, s.a)>>)}
-    [] s.k = "setp" -> {T(258, [k |-> "iarr", xs |-> <<Default(S, s.a)>>])}
+    \* also: two datums of one value in two encodings (two elements), and two different datums
+    [] s.k = "setp" -> {T(258, [k |-> "iarr", xs |-> <<Default(S, s.a)>>]),
+                        T(258, [k |-> "iarr", xs |-> <<T(121, A(<<>>)), T(121, [k |-> "iarr", xs |-> <<>>])>>]),
+                        T(258, [k |-> "iarr", xs |-> <<A(<<U(One)>>), [k |-> "iarr", xs |-> <<U(One)>>], Bs(<<170, 187>>)>>])}
     \* (index sets, not sets of field sequences: TLC cannot order schema nodes of different shapes)
     [] s.k = "map" -> LET MkMapV(sel) == LET ix == SelectSeq([i \in 1..Len(s.a) |-> i], LAMBDA i : i \in sel) IN M([q \in 1..Len(ix) |-> <<U(FromSmall(s.a[ix[q]].key)), Default(S, s.a[ix[q]].t)>>]) IN
                       {MkMapV({j \in 1..Len(s.a) : s.a[j].req \/ j = k}) : k \in {i \in 1..Len(s.a) : ~s.a[i].req}} \cup {MkMapV(1..Len(s.a))}
